@@ -775,19 +775,52 @@ func firstDiff(a, b []any) string {
 	return fmt.Sprintf("%d vs %d combinators", len(a), len(b))
 }
 
+// traceCfg: configuration of TraceTLSyntax for one run.
+func traceCfg(names []string, checkPrint, checkCanon, documented bool) string {
+	return "CONSTANTS\n  LowerNames = " + setLit(names) + "\n  CheckPrint = " + boolTLA(checkPrint) + "\n  CheckCanon = " + boolTLA(checkCanon) +
+		"\n  Documented = " + boolTLA(documented) + "\nINIT Init\nNEXT Next\nINVARIANT EventOK\nCHECK_DEADLOCK FALSE\n"
+}
+
+// tlcTrace validates the events; it returns the index of the first rejected event or -1.
+func tlcTrace(c *core.Ctx, module, cfg string, lines []string) (int, *core.TLCResult, error) {
+	if len(lines) == 0 {
+		return -1, &core.TLCResult{OK: true}, nil
+	}
+	r, err := c.TLC(core.TLCOpts{Module: module, CfgText: cfg, Files: map[string][]byte{"trace.ndjson": []byte(strings.Join(lines, "\n") + "\n")},
+		Workers: workers(c)/2 + 1, Timeout: 10 * time.Minute})
+	if err != nil {
+		return -1, r, err
+	}
+	if r.OK {
+		if r.Distinct != len(lines) {
+			return -1, r, fmt.Errorf("%s covered %d of %d events", module, r.Distinct, len(lines))
+		}
+		return -1, r, nil
+	}
+	if r.ErrorKind != "invariant" {
+		return -1, r, fmt.Errorf("%s failed: %s\n%s", module, r.ErrorKind, r.ErrorText)
+	}
+	m := reTraceIdx.FindStringSubmatch(r.ErrorText)
+	if m == nil {
+		return -1, r, fmt.Errorf("%s rejected the trace but the event index was not found:\n%s", module, r.ErrorText)
+	}
+	return atoi(m[1]) - 1, r, nil
+}
+
 // validateTrace1 runs TraceTLSyntax over recorded events; the CRC over the validated canonical text is compared here.
 func validateTrace1(c *core.Ctx, d *drv, st *stats, tb []byte, selftest bool) error {
 	var lines []string
 	seen := map[string]bool{}
 	for _, l := range strings.Split(strings.TrimSpace(string(tb)), "\n") {
-		if !seen[l] { // identical events (copies of a schema in the repository) are validated once
+		if !seen[l] { // identical events are validated once
 			seen[l] = true
 			lines = append(lines, l)
 		}
 	}
-	tb = []byte(strings.Join(lines, "\n") + "\n")
+	checkCanon := st.aspects["crc"] || st.aspects["listing"]
 	names := map[string]bool{}
 	ncomb, nrej := 0, 0
+	var plain, arith []string // arith: combinators with a sum of literals inside a repetition body (known deviation class)
 	for _, l := range lines {
 		var e map[string]any
 		if err := json.Unmarshal([]byte(l), &e); err != nil {
@@ -795,6 +828,7 @@ func validateTrace1(c *core.Ctx, d *drv, st *stats, tb []byte, selftest bool) er
 		}
 		if e["ev"] == "reject" {
 			nrej++
+			plain = append(plain, l)
 			continue
 		}
 		ncomb++
@@ -809,6 +843,11 @@ func validateTrace1(c *core.Ctx, d *drv, st *stats, tb []byte, selftest bool) er
 		if e["crc"] != want && st.aspects["crc"] {
 			c.Violate("crc/trace/"+featureKey([]any{ast}), fmt.Sprintf("recorded combinator %q has tag %v, but CRC32 of its canonical text %q is %s", e["text"], e["crc"], canon, want), map[string]any{"kind": "trace-event", "event": json.RawMessage(l)})
 		}
+		if checkCanon && hasFeature([]any{ast}, "arith-sum-in-body") {
+			arith = append(arith, l)
+		} else {
+			plain = append(plain, l)
+		}
 	}
 	if ncomb == 0 {
 		return fmt.Errorf("vacuous: the recorded trace holds no accepted combinator")
@@ -818,48 +857,67 @@ func validateTrace1(c *core.Ctx, d *drv, st *stats, tb []byte, selftest bool) er
 		ln = append(ln, k)
 	}
 	sort.Strings(ln)
-	cfg := "CONSTANTS\n  ArithInBodyByValue = TRUE\n  LowerNames = " + setLit(ln) + "\n  CheckPrint = " + boolTLA(st.aspects["print"]) + "\n  CheckCanon = " + boolTLA(st.aspects["crc"] || st.aspects["listing"]) +
-		"\nINIT Init\nNEXT Next\nINVARIANT EventOK\nCHECK_DEADLOCK FALSE\n"
-	run := func(data []byte) (*core.TLCResult, error) {
-		return c.TLC(core.TLCOpts{Module: "TraceTLSyntax", CfgText: cfg, Files: map[string][]byte{"trace.ndjson": data}, Workers: workers(c), Timeout: 10 * time.Minute})
+	cfgDoc := traceCfg(ln, st.aspects["print"], checkCanon, true)
+	violate := func(key, ev string) {
+		c.Violate(key, "recorded parse is not a behaviour of the TLSyntax specification (canonical form / printed form / listing line differ from Canon / Print / ListingLine of the recorded AST): "+clip(ev, 900), map[string]any{"kind": "trace-event", "event": json.RawMessage(ev)})
 	}
-	r, err := run(tb)
-	if err != nil {
-		return err
-	}
-	if r.OK {
-		if r.Distinct != len(lines) {
-			return fmt.Errorf("trace validation covered %d of %d events", r.Distinct, len(lines))
-		}
-		c.Add("traces_validated_against_impl", 1)
-		c.Add("trace_events_validated", len(lines))
-		c.Add("trace_events_rejected_by_impl", nrej)
-		c.Add("states", r.Distinct)
-		c.Sample(map[string]any{"trace_event": json.RawMessage(lines[len(lines)/3])})
-	} else {
-		if r.ErrorKind != "invariant" {
-			return fmt.Errorf("TraceTLSyntax failed: %s\n%s", r.ErrorKind, r.ErrorText)
-		}
-		m := reTraceIdx.FindStringSubmatch(r.ErrorText)
-		if m == nil {
-			return fmt.Errorf("TraceTLSyntax rejected the trace but the event index was not found:\n%s", r.ErrorText)
-		}
-		idx := atoi(m[1])
-		ev := lines[idx-1]
+	evKey := func(ev string) string {
 		var e map[string]any
 		_ = json.Unmarshal([]byte(ev), &e)
-		key := "trace/" + featureKey([]any{e["ast"]})
-		if hasFeature([]any{e["ast"]}, "arith-sum-in-body") && st.aspects["crc"] && !st.aspects["print"] {
-			key = "crc/arith-in-repeat-body"
-		}
-		c.Violate(key, "recorded parse is not a behaviour of the TLSyntax specification (canonical form / printed form / listing line differ from Canon / Print / ListingLine of the recorded AST): "+clip(ev, 900), map[string]any{"kind": "trace-event", "event": json.RawMessage(ev)})
-		return nil
+		return "trace/" + featureKey([]any{e["ast"]})
 	}
+	// the events outside the known deviation class: every rejection is reported (the offending event is removed and
+	// validation repeated so that one rejection does not hide another)
+	rest := plain
+	validated := 0
+	for round := 0; ; round++ {
+		idx, r, err := tlcTrace(c, "TraceTLSyntax", cfgDoc, rest)
+		if err != nil {
+			return err
+		}
+		if idx < 0 {
+			validated += len(rest)
+			c.Add("states", r.Distinct)
+			break
+		}
+		violate(evKey(rest[idx]), rest[idx])
+		rest = append(append([]string{}, rest[:idx]...), rest[idx+1:]...)
+		if round >= 4 {
+			break
+		}
+	}
+	// the known class: must satisfy the documented rule; if not, it must at least be exactly the "as coded" variant
+	if len(arith) > 0 {
+		idx, r, err := tlcTrace(c, "TraceTLSyntax", cfgDoc, arith)
+		if err != nil {
+			return err
+		}
+		if idx < 0 {
+			validated += len(arith)
+			c.Add("states", r.Distinct)
+		} else {
+			first := arith[idx]
+			idx2, _, err := tlcTrace(c, "TraceTLSyntax", traceCfg(ln, st.aspects["print"], checkCanon, false), arith)
+			if err != nil {
+				return err
+			}
+			if idx2 < 0 {
+				violate("crc/arith-in-repeat-body", first)
+			} else {
+				violate(evKey(arith[idx2]), arith[idx2])
+			}
+		}
+		c.Set("trace_events_with_arithmetic_in_repetition_body", len(arith))
+	}
+	c.Add("traces_validated_against_impl", 1)
+	c.Add("trace_events_validated", validated)
+	c.Add("trace_events_rejected_by_impl", nrej)
+	c.Sample(map[string]any{"trace_event": json.RawMessage(lines[len(lines)/3])})
 	if !selftest {
 		return nil
 	}
 	// binding self-test: one corrupted field of one recorded event must be rejected
-	for i, l := range lines {
+	for i, l := range plain {
 		var e map[string]any
 		_ = json.Unmarshal([]byte(l), &e)
 		if e["ev"] != "comb" {
@@ -876,17 +934,17 @@ func validateTrace1(c *core.Ctx, d *drv, st *stats, tb []byte, selftest bool) er
 		if lo < 0 {
 			lo = 0
 		}
-		if hi > len(lines) {
-			hi = len(lines)
+		if hi > len(plain) {
+			hi = len(plain)
 		}
-		cp := append([]string{}, lines[lo:hi]...)
+		cp := append([]string{}, plain[lo:hi]...)
 		cp[i-lo] = string(b)
-		r2, err := run([]byte(strings.Join(cp, "\n") + "\n"))
+		idx, _, err := tlcTrace(c, "TraceTLSyntax", cfgDoc, cp)
 		if err != nil {
 			return err
 		}
-		if r2.OK || r2.ErrorKind != "invariant" {
-			return fmt.Errorf("binding self-test failed: a corrupted %s field was not rejected by TraceTLSyntax", field)
+		if idx != i-lo {
+			return fmt.Errorf("binding self-test failed: a corrupted %s field was not rejected by TraceTLSyntax (rejected index %d, corrupted %d)", field, idx, i-lo)
 		}
 		c.Set("selftest_corrupted_trace_rejected", true)
 		break
